@@ -1,0 +1,16 @@
+//go:build verif
+// +build verif
+
+package gemmill
+
+import (
+	"github.com/spf13/viper"
+
+	"github.com/dappledger/AnnChain/gemmill/p2p"
+	"github.com/dappledger/AnnChain/gemmill/types"
+)
+
+// VerifAuthByCA exposes the certificate-authority admission check to the verification harness.
+func VerifAuthByCA(conf *viper.Viper, ppValidators **types.ValidatorSet) func(*p2p.NodeInfo) error {
+	return authByCA(conf, ppValidators)
+}
